@@ -62,6 +62,9 @@ def generate(seed, tier):
     if fmt in ("delimited", "fixed"):
         spec["line_delimiter"] = swarm.choice(["lf", "crlf", "cr", "any"] + (["none"] if fmt == "fixed" else []))
         spec["encoding"] = swarm.choice(["utf-8", "utf-8", "ascii"])
+        if fmt == "delimited" and swarm.random() < 0.4:
+            # an escape character that differs from the quote character (no cell of this workload needs escaping)
+            spec["props"] = [["escape character", "\\"]]
     if swarm.random() < 0.4:
         spec["checks"].append(["uniq", "IsUnique", swarm.choice(names)])
     if swarm.random() < 0.4:
@@ -122,7 +125,10 @@ def stored_bytes(scenario):
         line = lines[row_number - 1]
         tail = "".join(lines[row_number:]).encode(encoding)
         if kind == "open-quote":
-            data = head + ('"' + line).encode(encoding) + tail
+            # a quote is opened and never closed: no other quote character may follow in this line (three quotes
+            # in a row are not an unterminated quote in every dialect)
+            # and the file is torn right there (a later quote character would close it in some dialects)
+            data = head + ('"' + line.replace('"', "")).encode(encoding)
         elif kind == "undecodable":
             data = head + b"\xff" + line.encode(encoding) + tail
         elif kind == "wrong-delimiter":
@@ -367,6 +373,8 @@ def candidates(scenario):
     for key, value in (("header", 0), ("sep", ":"), ("line_delimiter", "lf"), ("encoding", "utf-8")):
         if key in scenario["cid"] and scenario["cid"].get(key) != value:
             yield lib.with_value(scenario, ["cid", key], value)
+    if scenario["cid"].get("props"):
+        yield lib.with_value(scenario, ["cid", "props"], [])
     if scenario.get("ods_features"):
         yield lib.with_value(scenario, ["ods_features"], [])
     if scenario.get("fault") and scenario["fault"].get("row", 1) > 1:
